@@ -3,9 +3,10 @@ CONSTANTS
   NObj = 2
   ObjType <- MCObjType
   NSlot = 3
-  SlotType <- MCSlotType3
+  SlotType <- MCSlotTypeCBD
   MaxExplicit = 1
   Policy <- PolicyAny
+  Layout = "multi"
   MemberTypes <- MembersDerived
   MaxBirths = 2
 INVARIANTS TypeOK Conservation AliveIffReferenced NoDangling StaticTypes DestroyedExactlyOnce
